@@ -35,20 +35,24 @@ Section Oracles.
 
   (* ---------------------------------------------------------------- C18_alternate *)
   (* every event is about the probed address and is justified by what was observed:
-     Up/Re by a valid reply with the same payload, Down by a time-out *)
-  Definition ev_matchb (p : apoll P) (e : aev P) : bool :=
+     Up/Re by a valid reply with the same payload, Down by a time-out.  `lenient` (live list):
+     an Up for the probed address is also accepted on any other reply - such a reply marks the
+     station (O1), and whether that is announced, and with which payload, is not the property's
+     business (the code does not announce it). *)
+  Definition ev_matchb (lenient : bool) (p : apoll P) (e : aev P) : bool :=
     match ap_da p with
     | None => false
     | Some da =>
         match e, ap_cls p with
         | AUp a q, CValid q' => (a =? da) && peqb q q'
+        | AUp a _, COther => lenient && (a =? da)
         | ARe a q, CValid q' => (a =? da) && peqb q q'
         | ADown a, CTimeout => a =? da
         | _, _ => false
         end
     end.
-  Definition evs_matchb (tr : list (apoll P)) : bool :=
-    forallb (fun p => forallb (ev_matchb p) (ap_evs p)) tr.
+  Definition evs_matchb (lenient : bool) (tr : list (apoll P)) : bool :=
+    forallb (fun p => forallb (ev_matchb lenient p) (ap_evs p)) tr.
 
   (* membership as told by the events alone: Up only for an unknown address, Down and Re
      only for a known one *)
@@ -63,22 +67,40 @@ Section Oracles.
         end
     end.
 
+  Definition has_up (a : Z) (evs : list (aev P)) : bool :=
+    existsb (fun e => match e with AUp b _ => b =? a | _ => false end) evs.
+
   (* `silent` = true: observation O1 built in (a reply that is not of the expected kind marks
-     the probed address without an event).  After every poll the membership told by the
-     events must equal the application's station list: one event per change, no change
-     without event. *)
+     the probed address; the mark may come without an event - or with an Up event, in which
+     case the event does the marking).  After every poll the membership told by the events
+     must equal the application's station list: one event per change, no change without event. *)
   Fixpoint alt_walk (silent : bool) (known : Z) (tr : list (apoll P)) : option Z :=
     match tr with
     | [] => Some known
     | p :: r =>
         let k0 := (match ap_da p, ap_cls p with
-                   | Some da, COther => if silent && negb (Z.testbit known da) then Z.setbit known da else known
+                   | Some da, COther =>
+                       if silent && negb (Z.testbit known da) && negb (has_up da (ap_evs p))
+                       then Z.setbit known da else known
                    | _, _ => known
                    end) in
         match fold_left alt_ev (ap_evs p) (Some k0) with
         | None => None
         | Some k => if k =? ap_bits p then alt_walk silent k r else None
         end
+    end.
+
+  (* no unannounced marking: no poll in which an other reply made an unknown address known
+     without an Up event.  On such transcripts strict alternation (alt_walk false) is due. *)
+  Fixpoint no_silent (prev : Z) (tr : list (apoll P)) : bool :=
+    match tr with
+    | [] => true
+    | p :: r =>
+        (match ap_da p, ap_cls p with
+         | Some da, COther =>
+             Z.testbit prev da || has_up da (ap_evs p) || negb (Z.testbit (ap_bits p) da)
+         | _, _ => true
+         end) && no_silent (ap_bits p) r
     end.
 
   Definition no_other (tr : list (apoll P)) : bool :=
@@ -204,6 +226,8 @@ Arguments probed {P}.
 Arguments evs_matchb {P}.
 Arguments alt_walk {P}.
 Arguments no_other {P}.
+Arguments no_silent {P}.
+Arguments has_up {P}.
 Arguments kinds_of {P}.
 Arguments ev_kinds {P}.
 Arguments consistent {P}.
